@@ -611,12 +611,38 @@ package ggql
 //@   ensures res == nil || ptrval(res) != 0
 //@   assigns nothing
 
-//@ func (*Field).sortArgs
-//@   abstract (C10/C11 contracts below are not yet checked against the body)
+//@ spec argDeclared(t Type, fname string, aname string) bool = fdOf(t, fname) != nil && fdOf(t, fname).args.dict[aname] != nil
+//@ fieldinv FieldDef.args: true
+//@ eleminv []*Arg: v != nil
+
+//@ func (*Field).getArg
+//@   props C10
+//@   check panic {C03}
 //@   requires f != nil
-//@   ensures errsFresh(errors)
+//@   ensures[found] av != nil ==> av.Arg == name
 //@   ensures #res == old(#res)
-//@   assigns fresh, f.Args
+//@   assigns nothing
+//@   loop 0: invariant[bounds] rangeindex+1 <= len(f.Args)
+//@           decreases len(f.Args) - rangeindex
+
+//@ func (*Field).sortArgs
+//@   props C10
+//@   check panic {C03}
+//@   check frame {C11}
+//@   requires f != nil
+//@   requires f.ConType != nil ==> ptrval(f.ConType) != 0
+//@   ensures[errs-fresh]{C06} errsFresh(errors)
+//@   ensures[no-resolver]{C10} #res == old(#res)
+//@   ensures[undeclared-arg-object]{C10} is(old(f.ConType), *Object) ==> (forall i int :: 0 <= i && i < old(len(f.Args)) && old(fdOf(f.ConType, f.Name) != nil && !argDeclared(f.ConType, f.Name, f.Args[i].Arg)) ==> len(errors) > 0)
+//@   ensures[undeclared-arg-interface]{C10} is(old(f.ConType), *Interface) ==> (forall i int :: 0 <= i && i < old(len(f.Args)) && old(fdOf(f.ConType, f.Name) != nil && !argDeclared(f.ConType, f.Name, f.Args[i].Arg)) ==> len(errors) > 0)
+//@   ensures[undeclared-arg-schema]{C10} (is(old(f.ConType), *Schema) || is(old(f.ConType), *uuSchema)) ==> (forall i int :: 0 <= i && i < old(len(f.Args)) && old(fdOf(f.ConType, f.Name) != nil && !argDeclared(f.ConType, f.Name, f.Args[i].Arg)) ==> len(errors) > 0)
+//@   assigns fresh
+//@   loop 0: invariant[bounds] rangeindex+1 <= len(fd.args.list)
+//@           decreases len(fd.args.list) - rangeindex
+//@   loop 1: invariant[bounds] rangeindex+1 <= len(f.Args)
+//@           invariant[errs] errsFresh(errors)
+//@           invariant[found]{C10} forall i int :: 0 <= i && i <= rangeindex && !argDeclared(f.ConType, f.Name, f.Args[i].Arg) ==> len(errors) > 0
+//@           decreases len(f.Args) - rangeindex
 
 //@ func (*Root).formArgs
 //@   abstract (not yet checked against the body)
